@@ -88,4 +88,13 @@ def call_in_ifexpr(xs: list[fp.Real], a: fp.Real):
     t = bump(xs, 1) if a > 0 else a
     return (t, xs)
 
-ALL = [call_in_comprehension, call_in_ifexpr, hyp, ctx_caller, mutating_caller, name_clash_caller, call_in_loop, arg_order, nested_with_caller, hoistable, chain]
+@fp.fpy
+def setfirst(xs: list[fp.Real]):
+    xs[0] = 5
+    return 1
+
+@fp.fpy
+def order_caller(xs: list[fp.Real]):
+    return xs[0] + setfirst(xs)
+
+ALL = [order_caller, call_in_comprehension, call_in_ifexpr, hyp, ctx_caller, mutating_caller, name_clash_caller, call_in_loop, arg_order, nested_with_caller, hoistable, chain]
